@@ -980,8 +980,11 @@ func guardsOnEdge(pred, succ *ssa.BasicBlock) []Atom {
 		if iff, ok := pred.Instrs[len(pred.Instrs)-1].(*ssa.If); ok && pred.Succs[0] != pred.Succs[1] {
 			for idx := 0; idx < 2; idx++ {
 				if pred.Succs[idx] == succ {
-					if at, ok := condAtom(iff.Cond, idx == 0); ok {
-						out = append(out, at.canon())
+					for _, g := range expandCond(iff.Cond, idx == 0, 0) {
+						if at, ok := condAtom(g.Cond, g.Positive); ok {
+							out = append(out, at.canon())
+						}
+						out = append(out, helperAtoms(g)...)
 					}
 				}
 			}
@@ -1085,24 +1088,9 @@ func isInductionFromNonNeg(v ssa.Value) bool {
 						if kk, isKK := constInt(e); isKK && kk >= k {
 							continue
 						}
-						okEdge := false
-						for _, a := range guardsAt(ph.Block().Preds[i]) {
-							if a.L == valName(e) && ((a.Op == ">=" && a.R == "1") || (a.Op == ">" && a.R == "0")) {
-								okEdge = true
-							}
-						}
-						// the edge may come straight from the test `e < 1` (false edge)
-						pred := ph.Block().Preds[i]
-						if !okEdge && len(pred.Instrs) > 0 {
-							if iff, isIf := pred.Instrs[len(pred.Instrs)-1].(*ssa.If); isIf {
-								if at, okA := condAtom(iff.Cond, pred.Succs[0] == ph.Block()); okA {
-									a := at.canon()
-									if a.L == valName(e) && ((a.Op == ">=" && a.R == "1") || (a.Op == ">" && a.R == "0")) {
-										okEdge = true
-									}
-								}
-							}
-						}
+						// known to be at least k on that edge (from the guards of the predecessor and the
+						// edge's own test, e.g. the false edge of `e < 1`)
+						okEdge := atomLowerBound(guardsOnEdge(ph.Block().Preds[i], ph.Block()), valName(e)) >= k
 						if !okEdge {
 							all = false
 						}
@@ -1341,4 +1329,30 @@ func loopStepLowerBound(phi *ssa.Phi, h *ssa.BasicBlock, body map[*ssa.BasicBloc
 		return 0, false
 	}
 	return worst, true
+}
+
+// atomLowerBound: the best constant lower bound the atoms give for the value printed as name
+// (-1<<40 when none).
+func atomLowerBound(as []Atom, name string) int64 {
+	best := int64(-1 << 40)
+	for _, a := range as {
+		if a.L != name {
+			continue
+		}
+		var k int64
+		if _, err := fmt.Sscanf(a.R, "%d", &k); err != nil {
+			continue
+		}
+		switch a.Op {
+		case ">=", "==":
+			if k > best {
+				best = k
+			}
+		case ">":
+			if k+1 > best {
+				best = k + 1
+			}
+		}
+	}
+	return best
 }
